@@ -52,6 +52,9 @@ SimNext ==
         \/ FMSend(f) /\ Step(f, "")
         \/ FMWait(f) /\ Step(f, f \o "@exp.flush")
         \/ FRet(f) /\ Step(f, f \o "@ret")
+        \/ FGiveUp(f) /\ Step(f, f \o "@blp.ff.dequeued")
+        \/ FMSendCancel(f) /\ Step(f, "")
+        \/ FMWaitCancel(f) /\ Step(f, "")
   \/ \E s \in Stoppers :
         \/ SCall(s) /\ Keep
         \/ SSwap(s) /\ Step(s, s \o (IF stopped THEN "@blp.sd.already" ELSE "@blp.sd.swapped"))
@@ -65,6 +68,12 @@ SimNext ==
         \/ SXLock(s) /\ Step(s, "")
         \/ SXWait(s) /\ Step(s, s \o "@exp.shutdown")
         \/ SRet(s) /\ Step(s, s \o "@ret")
+        \/ SWaitPollCancel(s) /\ Step(s, "")
+        \/ SESendCancel(s) /\ Step(s, s \o "@blp.sd.flushed")
+        \/ SEWaitCancel(s) /\ Step(s, s \o "@blp.sd.flushed")
+        \/ SXWaitCancel(s) /\ Step(s, s \o "@exp.shutdown")
+  \* the harness' canceller goroutine of caller c waits at "<c>@cancel" from the start of the scenario
+  \/ \E c \in Callers : Cancel(c) /\ hist' = Append(hist, c \o "@cancel") /\ UNCHANGED <<xres, last, fin>>
 
 Finish == /\ ~fin /\ (AllDone \/ ~ENABLED Next)
           /\ PrintT("BEHAVIOUR " \o ToJson([script |-> hist, xres |-> xres, alldone |-> AllDone, bad |-> mon.bad]))
